@@ -473,7 +473,81 @@ def c13(sc, tier, seed):
                     exhaustive=(tier != 'quick'))
 
 
-CHECKS = {'C01': c01, 'C13': c13, 'C02': c02, 'C18': c18, 'C15': c15, 'C08': c08, 'C14': c14, 'C10': c10, 'C09': c09, 'C07': c07, 'C06': c06, 'C03': c03, 'C04': c04, 'C05': c05}
+def c19(sc, tier, seed):
+    """Persistence: TLC-enumerated (snapshot state, last command) pairs run through save / restart cycles of real instances."""
+    import random as _r
+    v = Verdict('C19', tier, seed)
+    exe = build_harness(sc)
+    devs = open_devs()
+    out, st = run_tlc(sc, 'MC_persist', mc_cfg('MC_persist', devs), timeout=900)
+    require_tlc_clean(st, 'MC_persist')
+    v.add_tlc('MC_persist', st)
+    cases = [c for c in join_cases(tlc_json_lines(out))]
+    rnd = _r.Random(seed)
+    rnd.shuffle(cases)
+    nstage = 150 if tier == 'quick' else 1200
+    port = int(os.environ.get('VERIF_PORT', 21000)) + 1800
+    allres = []
+    for tag, part, extra in (('ps', cases[nstage:], []), ('pss', cases[:nstage], ['-stages'])):
+        for i, c in enumerate(part):
+            c['id'] = i
+        cf, rf = sc.path(tag + '-cases.jsonl'), sc.path(tag + '-out.jsonl')
+        with open(cf, 'w') as f:
+            for c in part:
+                f.write(json.dumps(c, separators=(',', ':')) + '\n')
+        p = subprocess.run([exe, 'persist', '-cases', cf, '-out', rf, '-workers', '12', '-port', str(port)] + extra, stdout=subprocess.PIPE, stderr=subprocess.PIPE, text=True)
+        if p.returncode != 0:
+            raise Inconclusive('persist engine failed: ' + p.stderr[-2000:])
+        res = {r['id']: r for r in (json.loads(l) for l in open(rf))}
+        allres += [(c, res.get(c['id'])) for c in part]
+    images = torn_empty = 0
+    nontriv = 0
+    for c, r in allres:
+        v.cov['evaluations'] += 1
+        what = cmd_text(c['steps'][-1]['cmd'])
+        if r is None or r['status'] == 'error':
+            v.inconclusive.append('persist case: %s: %s' % (what, (r or {}).get('detail')))
+            continue
+        if r['status'] == 'skipped':
+            continue
+        if r['status'] == 'reloadfail':
+            v.cov['traces_validated_against_impl'] += 1
+            empty_str = any(e['v']['ty'] == 'string' and e['v']['s'] == [] for e in c['pre']['ents'])
+            if empty_str and 'D_PERSIST_EMPTY_STRING_LOADS_UNREADABLE' in devs and 'WRONGTYPE' in (r.get('detail') or ''):
+                v.record_known('D_PERSIST_EMPTY_STRING_LOADS_UNREADABLE', 'SET a "" ; shutdown ; restart :: ' + (r.get('detail') or '')[:200])
+            else:
+                v.record_violation(c, {'fail': {'status': 'viol', 'cmd': '(no command: save and reload only)', 'detail': (r.get('detail') or '')[:600]}}, engine='persist')
+            continue
+        v.cov['traces_validated_against_impl'] += 1
+        if c['pre']['ents'] != c['steps'][-1]['ideal']['post']['ents']:
+            nontriv += 1
+        if r['status'] == 'known':
+            for dv in r.get('dv') or ['?']:
+                v.record_known(dv, what + ' :: ' + (r.get('detail') or '')[:200])
+        elif r['status'] != 'ok':
+            v.record_violation(c, {'fail': {'status': r['status'], 'cmd': what, 'detail': (r.get('detail') or '')[:600]}}, engine='persist')
+            continue
+        images += r.get('images', 0)
+        torn_empty += r.get('torn_empty', 0)
+        if r.get('torn'):
+            v.record_violation(c, {'fail': {'status': 'viol', 'cmd': what, 'detail': 'crash image is neither the previous nor the new snapshot (nor empty): ' + '; '.join(r['torn'])[:600]}}, engine='persist-images')
+    if torn_empty:
+        if 'D_SAVE_TRUNCATES_FILE_IN_PLACE' in devs:
+            v.known['D_SAVE_TRUNCATES_FILE_IN_PLACE'] = torn_empty
+            v.known_example['D_SAVE_TRUNCATES_FILE_IN_PLACE'] = '%d of %d captured crash images load as an empty database' % (torn_empty, images)
+        else:
+            v.record_violation({'images': images}, {'fail': {'status': 'viol', 'cmd': 'crash images', 'detail': '%d of %d crash images load as an empty database' % (torn_empty, images)}}, engine='persist-images')
+    v.cov['distinct_nontrivial'] = nontriv
+    v.cov['engines']['persist'] = {'restart_cases': len(allres), 'crash_images_loaded': images, 'crash_images_loading_empty': torn_empty}
+    v.add_samples(cases, 2)
+    v.assumptions = ['one command between the last save and the shutdown (the "last mutator before shutdown" axis); longer histories only through the final state they produce',
+                     'a crash is simulated by copying the persist files at each hook point of the snapshot writer (after create, after header, after each key, before close) and loading the copy in a fresh instance',
+                     'expired-but-stored entries are saved and loaded like any other (invisible either way)']
+    return v.finish(rule='TLC enumerates MC_persist: 12 snapshot states (every type, with/without TTL, databases 0 and 1) x 121 command instances (one instance of every mutator of the emulator on every type incl. in-place changes, removal of the last element, expiry changes, FLUSHDB/FLUSHALL) and computes what a restart must load (RestartRestores checked on the ideal reading); each pair runs through real instances: load + clean shutdown, restart, command, clean shutdown, restart, full-state comparison; for a seeded subset the on-disk image at every stage of the snapshot write is captured through the verif hook and loaded by a fresh instance (must be the previous or the new snapshot). Non-trivial = the command changed the database.',
+                    level='fault_enumeration')
+
+
+CHECKS = {'C01': c01, 'C19': c19, 'C13': c13, 'C02': c02, 'C18': c18, 'C15': c15, 'C08': c08, 'C14': c14, 'C10': c10, 'C09': c09, 'C07': c07, 'C06': c06, 'C03': c03, 'C04': c04, 'C05': c05}
 
 
 def replay_path(path):
